@@ -49,6 +49,11 @@ def random_suite(tier, seed):
     for inp in T.gen_suite(rng3, 4 if tier == "quick" else 40, families=["diagshift"], nmax=4, dims=(3, 3, 2), periodics=(True,)):
         inp["id"] = len(inputs)
         inputs.append(inp)
+    # one-sided clumps in sparse boxes (own stream)
+    rng4 = C.Rng(seed * 3881 + 19)
+    for inp in T.gen_suite(rng4, 6 if tier == "quick" else 60, families=["clump"], nmax=4, dims=(3, 2, 3, 1), periodics=(True, False)):
+        inp["id"] = len(inputs)
+        inputs.append(inp)
     # a few partial constructions
     extra = []
     for inp in inputs[::4]:
